@@ -1,7 +1,7 @@
-(* PropC18.v — C18: queues are isolated from one another (live part; the restart/crash parts rest on C01/C02).
+(* PropC18.v — C18: queues are isolated from one another, live and across clean restarts (histories from a fresh directory, hist_ok); the crash part rests on C02.
    Statements only; each theorem is closed by `exact <lemma>`; proofs live in the imported files. *)
 From Coq Require Import Lia NArith List.
-From MRL Require Import Bytes Params Names Frame Record Mem Spec Rolling Log Hist SpecRefine QueueIso RecordProofs.
+From MRL Require Import Bytes Params Names Frame Record Mem Spec Rolling Log Hist SpecRefine QueueIso RecordProofs RestartInv RestartFinal RestartCorollaries.
 
 (* specification level: removing the calls addressed to other queues changes neither q's content nor the outcomes of q's calls *)
 Theorem C18_spec_projection :
@@ -49,4 +49,50 @@ Theorem C18_replay_other_untouched :
     entry_queue e <> q' -> apply_entry qs file e = Some qs' -> qs_get qs' q' = qs_get qs q'.
 Proof. exact apply_other_queue_untouched. Qed.
 Print Assumptions C18_replay_other_untouched.
+
+(* histories with restarts anywhere: removing the calls addressed to other queues (keeping the restarts) changes neither q's final content (range, last_position, last_record) nor the logical outcomes of q's calls *)
+Theorem C18_projection_with_restarts :
+    forall P : params,
+    7 < BS P ->
+    BS P <= 65542 ->
+    1 <= NB P ->
+    (forall (t : byte) (p : bytes), crcf P t p < 2 ^ 32) ->
+    L_GC P = false ->
+    L_IO P = false ->
+    forall (pol0 : policy) (st0 : state) (h : list hop) (q : bytes),
+    open P [] None pol0 [] = OpenOk st0 ->
+    hist_ok P st0 h ->
+    hist_ok P st0 (hproj q h) ->
+    exists (st1 : state) (outs1 : list outcome) (st2 : state) (outs2 : list outcome)
+    (souts2 : list sout),
+    hrun P st0 h = Some (st1, outs1) /\
+    hrun P st0 (hproj q h) = Some (st2, outs2) /\
+    s_get (abs_qs (s_qs st1)) q = s_get (abs_qs (s_qs st2)) q /\
+    (forall lo hi : bound, log_range st1 q lo hi = log_range st2 q lo hi) /\
+    log_last_position st1 q = log_last_position st2 q /\
+    log_last_record st1 q = log_last_record st2 q /\
+    map out_logical outs2 = map Some souts2 /\
+    map out_logical (keep_outs (on_queue q) (hcalls_t h) outs1) = map Some souts2.
+Proof. exact projection_with_restarts. Qed.
+Print Assumptions C18_projection_with_restarts.
+
+(* a history of restarts and calls on other queues leaves q untouched, file deletion included *)
+Theorem C18_others_and_restarts_invisible :
+    forall P : params,
+    7 < BS P ->
+    BS P <= 65542 ->
+    1 <= NB P ->
+    (forall (t : byte) (p : bytes), crcf P t p < 2 ^ 32) ->
+    L_GC P = false ->
+    L_IO P = false ->
+    forall (h : list hop) (q : bytes) (st : state) (G : ghost) (st' : state) (outs : list outcome),
+    Inv P st G ->
+    hist_ok P st h ->
+    hrun P st h = Some (st', outs) ->
+    (forall o : op, In o (hcalls h) -> sop_queue (sop_of o) <> Some q) ->
+    s_get (abs_qs (s_qs st')) q = s_get (abs_qs (s_qs st)) q /\
+    (forall lo hi : bound, log_range st' q lo hi = log_range st q lo hi) /\
+    log_last_position st' q = log_last_position st q /\ log_last_record st' q = log_last_record st q.
+Proof. exact others_and_restarts_invisible. Qed.
+Print Assumptions C18_others_and_restarts_invisible.
 
